@@ -984,6 +984,10 @@ func (s *runtimeState) loadAuth(compiled config.Compiled) error {
 	}
 
 	s.mu.Lock()
+	// Replay protection must survive a reload: keep each route's nonce cache.
+	for route, auth := range hmacByRoute {
+		auth.InheritNonceCache(s.hmacByRoute[route])
+	}
 	s.pullAuthorize = pullapi.BearerTokenAuthorizer(tokens)
 	s.workerAuthorize = workerapi.BearerTokenAuthorizer(tokens)
 	s.adminAuthorize = admin.BearerTokenAuthorizer(adminTokens)
